@@ -7,6 +7,7 @@ require (
 	github.com/onflow/atree v0.16.1
 	github.com/onflow/cadence v0.0.0
 	github.com/onflow/fixed-point v0.1.1
+	github.com/rivo/uniseg v0.4.7
 	go.opentelemetry.io/otel v1.38.0
 	golang.org/x/text v0.31.0
 )
@@ -25,7 +26,6 @@ require (
 	github.com/mattn/go-colorable v0.1.14 // indirect
 	github.com/mattn/go-isatty v0.0.20 // indirect
 	github.com/pmezard/go-difflib v1.0.0 // indirect
-	github.com/rivo/uniseg v0.4.7 // indirect
 	github.com/rogpeppe/go-internal v1.9.0 // indirect
 	github.com/stretchr/testify v1.11.1 // indirect
 	github.com/texttheater/golang-levenshtein/levenshtein v0.0.0-20200805054039-cae8b0eaed6c // indirect
